@@ -10,6 +10,7 @@ for i in $(seq -w 1 20); do
 done
 /venv/bin/python -B selftest/run.py 2>&1 | tail -3
 /venv/bin/python -B selftest/rename.py 2>&1 | tail -1
+/venv/bin/python -B selftest/swapif.py 2>&1 | tail -1
 for b in benign/*/patch.diff features/*/patch.diff; do
   (/venv/bin/python -B tools/eval_benign.py $b 2>&1 | tail -1) &
   while [ $(jobs -r | wc -l) -ge 8 ]; do sleep 0.5; done
